@@ -107,6 +107,8 @@ SCALAR_PARAMS = {
 SCALAR_PARAMS = set()
 
 TRUSTED = [
+    '`x <<= unit` on values read from fields / lazy caches attaches a unit to a unit-less array (a '
+    'view, no write); in-place unit conversion is considered only for a parameter itself',
     'add_progress_bar(x) iterates over x unchanged (tqdm wrapper)',
     'numpy aliasing model (vf/effects/tables.py): basic slicing / integer indexing / np.asarray, '
     'asanyarray, atleast_*d, ravel, reshape, squeeze, transpose, swapaxes, broadcast_to, moveaxis, '
@@ -129,6 +131,9 @@ LOCAL_SCALARS = {
     # float scalar taken from a flux array, max_radius a float
     ('photutils/segmentation/catalog.py::SourceCatalog.fluxfrac_radius', 'args[3]'),
     ('photutils/segmentation/catalog.py::SourceCatalog.fluxfrac_radius', 'max_radius'),
+    # loop variables iterating a 1-D float array are immutable numpy scalars
+    ('photutils/segmentation/catalog.py::SourceCatalog.centroid_win', 'xcen'),
+    ('photutils/segmentation/catalog.py::SourceCatalog.centroid_win', 'ycen'),
     # astropy units are immutable: `unit **= 2` rebinds the local name
     ('photutils/aperture/stats.py::ApertureStats.var', 'unit'),
     ('photutils/aperture/stats.py::ApertureStats.biweight_midvariance', 'unit'),
